@@ -11,6 +11,9 @@
          shanks (Nearest: n_keep distinct channels, none beyond D, every channel strictly nearer than D included; such
          an S is downward closed by distance: Nearest_down_closed) -- i.e. the outcome of get_closest_channels under
          some tie-break of argsort, intersected with the shank.
+   Conversely (legal_at_complete / legal_chans_iff) every Legal list is accepted: legal_chans <-> Legal.
+   Without a boundary tie (NoTie; implied by Corr.boundary_ok: boundary_ok_NoTie) the accepted lists are exactly the
+   duplicate-free lists of { channels on b's shank within distance D } (legal_chans_no_tie_iff).
    Nothing here is about which tie-break NumPy takes: every tie-break is admitted. *)
 From Coq Require Import ZArith List Lia Bool Arith Permutation Sorted.
 From PV Require Import Base.NpSearch Base.NpSort C08.Model C08.Spec C08.Proofs C08.Corr.
@@ -589,3 +592,120 @@ Proof.
     apply legal_chans_no_tie in H. destruct H as (b & Hb & H). rewrite Hp in Hb. injection Hb as <-.
     exact (proj2 (H Ht)).
 Qed.
+
+(* ---------- completeness: legal_chans accepts EVERY Legal list (so legal_chans <-> Legal) ---------- *)
+Lemma ins_u_length_notin x u : ~ In x u -> length (ins_u x u) = S (length u).
+Proof.
+  induction u as [|y r IH]; intros Hn; cbn [ins_u length]; [reflexivity|].
+  destruct (x <? y) eqn:E1; [reflexivity|]. destruct (x =? y) eqn:E2.
+  - exfalso. apply Hn. left. lia.
+  - cbn [length]. rewrite IH; [reflexivity|]. intros H. apply Hn. right; exact H.
+Qed.
+
+Lemma NoDup_np_unique_length l : NoDup l -> length (np_unique l) = length l.
+Proof.
+  induction 1 as [|x l Hn Hd IH]; [reflexivity|]. cbn [np_unique fold_right length]. fold (np_unique l).
+  rewrite ins_u_length_notin; [lia|]. rewrite np_unique_in. exact Hn.
+Qed.
+
+Lemma filter_split2 (f g : Z -> bool) l : (forall x, In x l -> f x = negb (g x)) ->
+  length l = (length (filter f l) + length (filter g l))%nat.
+Proof.
+  induction l as [|x l IH]; intros H; [reflexivity|]. cbn [filter length].
+  rewrite (H x (or_introl eq_refl)). rewrite IH by (intros y Hy; apply H; right; exact Hy).
+  destruct (g x); cbn [negb length]; lia.
+Qed.
+
+Lemma NoDup_same_length (a c : list Z) : NoDup a -> NoDup c -> (forall x, In x a <-> In x c) -> length a = length c.
+Proof. intros Ha Hc H. apply Permutation_length. apply NoDup_Permutation; assumption. Qed.
+
+Theorem legal_at_complete d b chans : Legal d b chans -> legal_at d b chans = true.
+Proof.
+  intros HL. destruct (lg_count d b chans HL) as (S & HN & Hiff).
+  pose proof (lg_nodup d b chans HL) as Hnd. pose proof (nr_nodup d b S HN) as HSnd.
+  pose proof (nr_len d b S HN) as Hlen.
+  set (all := zrange 0 (n_channels d)).
+  set (fl := fun ch => dist_of d b ch <? cut_of d b).
+  set (fe := fun ch => dist_of d b ch =? cut_of d b).
+  set (fo := fun ch => (dist_of d b ch =? cut_of d b) && negb (on_shank_b d b ch)).
+  set (gon := on_shank_b d b). set (gof := fun ch => negb (on_shank_b d b ch)).
+  assert (Hall_nd : NoDup all) by apply zrange_NoDup.
+  assert (Hall_in : forall x, In x all <-> is_chan d x).
+  { intros x. unfold is_chan. split; intros Hx; [apply zrange_ge in Hx; lia|apply zrange_in; lia]. }
+  assert (E1 : length (filter fl S) = length (filter fl all)).
+  { apply NoDup_same_length; [apply NoDup_filter_Z; exact HSnd|apply NoDup_filter_Z; exact Hall_nd|].
+    intros x. rewrite !filter_In. split; intros [Hx Hf].
+    - split; [apply Hall_in; exact (nr_chan d b S HN x Hx)|exact Hf].
+    - split; [|exact Hf]. apply (nr_closed d b S HN); [apply Hall_in; exact Hx|]. subst fl. cbv beta in Hf. lia. }
+  assert (E2 : length S = (length (filter fl S) + length (filter fe S))%nat).
+  { apply filter_split2. intros x Hx. pose proof (nr_within d b S HN x Hx) as Hw. subst fl fe. cbv beta.
+    destruct (Z.ltb_spec (dist_of d b x) (cut_of d b)), (Z.eqb_spec (dist_of d b x) (cut_of d b));
+      cbn [negb]; try reflexivity; exfalso; lia. }
+  assert (E3 : length (filter fe S) = (length (filter gon (filter fe S)) + length (filter gof (filter fe S)))%nat).
+  { apply filter_split2. intros x _. subst gon gof. cbv beta. rewrite negb_involutive. reflexivity. }
+  assert (E4 : length (filter gon (filter fe S)) = length (filter fe chans)).
+  { apply NoDup_same_length; [apply NoDup_filter_Z, NoDup_filter_Z; exact HSnd|apply NoDup_filter_Z; exact Hnd|].
+    intros x. rewrite !filter_In, Hiff. subst gon. cbv beta. tauto. }
+  assert (E5 : (length (filter gof (filter fe S)) <= length (filter fo all))%nat).
+  { apply NoDup_incl_length; [apply NoDup_filter_Z, NoDup_filter_Z; exact HSnd|].
+    intros x Hx. apply filter_In in Hx. destruct Hx as [Hx Ho]. apply filter_In in Hx. destruct Hx as [Hx He].
+    apply filter_In. split; [apply Hall_in; exact (nr_chan d b S HN x Hx)|].
+    subst fo fe gof. cbv beta in *. rewrite He, Ho. reflexivity. }
+  unfold legal_at. cbv zeta. unfold zcount. fold all. fold fl. fold fe. fold fo.
+  repeat (apply andb_true_iff; split).
+  - apply Nat.eqb_eq. apply NoDup_np_unique_length. exact Hnd.
+  - apply forallb_forall. intros ch Hin.
+    pose proof (lg_chan d b chans HL ch Hin) as Hc. unfold is_chan in Hc.
+    pose proof (lg_on_shank d b chans HL ch Hin) as Hs. pose proof (lg_within d b chans HL ch Hin) as Hw.
+    rewrite Hs. replace (0 <=? ch) with true by lia. replace (ch <? Z.of_nat (n_channels d)) with true by lia.
+    replace (dist_of d b ch <=? cut_of d b) with true by lia. reflexivity.
+  - apply forallb_forall. intros ch Hin. apply Hall_in in Hin.
+    destruct (on_shank_b d b ch) eqn:Hs; [|reflexivity].
+    destruct (dist_of d b ch <? cut_of d b) eqn:Hlt; [|reflexivity].
+    cbn [andb negb orb]. apply memZ_In. apply Hiff. split; [|exact Hs].
+    apply (nr_closed d b S HN); [exact Hin|lia].
+  - apply memZ_In. exact (lg_peak d b chans HL).
+  - apply Z.leb_le. lia.
+  - apply Z.leb_le. lia.
+Qed.
+Print Assumptions legal_at_complete.
+
+(* legal_chans is EXACTLY Legal at the peak channel: sound and complete, every tie-break admitted, nothing else *)
+Theorem legal_chans_iff d unw t chans :
+  legal_chans d unw t chans = true <-> exists b, peak_chan d unw t = Some b /\ Legal d b chans.
+Proof.
+  split; [apply legal_chans_sound|]. intros (b & Hp & HL).
+  rewrite legal_chans_eq, Hp. apply legal_at_complete. exact HL.
+Qed.
+Print Assumptions legal_chans_iff.
+
+(* (c) both directions: without a boundary tie legal_chans accepts EXACTLY the duplicate-free lists of
+   { channels on the peak's shank within the n_keep-th smallest distance } that contain the peak channel *)
+Theorem legal_chans_no_tie_iff d unw t chans b : peak_chan d unw t = Some b -> NoTie d b ->
+  (legal_chans d unw t chans = true <->
+   NoDup chans /\ In (Z.of_nat b) chans /\
+   forall ch, In ch chans <-> is_chan d ch /\ on_shank_b d b ch = true /\ dist_of d b ch <= cut_of d b).
+Proof.
+  intros Hp Ht. split.
+  - intros H. pose proof (legal_chans_no_tie d unw t chans H) as (b1 & Hp1 & H1).
+    pose proof (legal_chans_on_shank d unw t chans H) as (b2 & Hp2 & Hpk & _).
+    rewrite Hp in Hp1, Hp2. injection Hp1 as <-. injection Hp2 as <-.
+    destruct (H1 Ht) as [Hnd Hiff]. repeat split; try assumption; apply Hiff; assumption.
+  - intros (Hnd & Hpk & Hiff). apply legal_chans_iff. exists b. split; [exact Hp|].
+    constructor; try assumption.
+    + intros ch Hin. apply Hiff in Hin. tauto.
+    + intros ch Hin. apply Hiff in Hin. tauto.
+    + intros ch Hin. apply Hiff in Hin. tauto.
+    + intros ch ch' Hin' Hc Hs Hlt. apply Hiff in Hin'. destruct Hin' as (_ & _ & Hw').
+      apply Hiff. split; [exact Hc|]. split; [exact Hs|lia].
+    + exists (filter (fun ch => dist_of d b ch <=? cut_of d b) (zrange 0 (n_channels d))). split; [constructor|].
+      * apply NoDup_filter_Z, zrange_NoDup.
+      * unfold NoTie, zcount in Ht. lia.
+      * intros ch Hin. apply filter_In in Hin. destruct Hin as [Hin _]. apply zrange_ge in Hin. unfold is_chan. lia.
+      * intros ch Hin. apply filter_In in Hin. lia.
+      * intros ch Hc Hlt. apply filter_In. unfold is_chan in Hc. split; [apply zrange_in; lia|lia].
+      * intros ch. rewrite Hiff, filter_In. unfold is_chan. split.
+        -- intros (Hc & Hs & Hw). split; [split; [apply zrange_in; lia|lia]|exact Hs].
+        -- intros [[Hin Hw] Hs]. apply zrange_ge in Hin. repeat split; try assumption; lia.
+Qed.
+Print Assumptions legal_chans_no_tie_iff.
